@@ -180,7 +180,7 @@ Definition runh (k : hk) : res (Z * Z) :=
   ctx.extra.update({'cases_getitem': len(g_cases), 'cases_setitem': len(s_cases), 'cases_helpers': len(h_cases)})
 
 def main(ctx):
-  ctx.trusted += ['translators/py2coq_bits.py (PythonBits.__getitem__/__setitem__ and helpers.clog2 are generated; concat/zext/sext/trunc/reduce_* are hand-modelled in Bits/Helpers.v and tied by T-diff only)',
+  ctx.trusted += ['translators/py2coq_bits.py (PythonBits.__getitem__/__setitem__ and helpers clog2/trunc/zext/sext/reduce_and/reduce_or are generated; concat and reduce_xor (loops) are hand-modelled in Bits/Helpers.v and tied by T-diff only; the BitsN class template in bits_import.py is pinned textually)',
                   'Python int <-> Coq Z operator identities']
   ctx.assumptions += ['a slice step of 0 is treated like "no step" (Python truthiness; it selects exactly the named bits)',
                       'the BitsN-type form of trunc/zext/sext has no assertion guard in the code; the model mirrors that']
